@@ -23,6 +23,8 @@ GATES = [
     ("SUB_INDEX", "C04", "the handler given to member i is member i's handler"),
     ("LAZY", "C09", "member k+1 is subscribed only after member k completed"),
     ("PREV_INNER", "C11", "the previous inner is disposed before the next is subscribed"),
+    ("FLAT_DONE", "C11", "the output completes only when the outer completed and no inner is active"),
+    ("FLAT_ROUTE", "C11", "a Pull goes to the active inner if there is one, else to the outer"),
     ("NESTED", "C15", "no delivery begins while an earlier one is in progress"),
     ("ERR_ID", "C05", "the error delivered is the error received"),
     ("OP1", "C08", "operator-specific clause 1"),
